@@ -37,7 +37,7 @@ MANIFEST = {
     'text': 'All strings over a 10-symbol markup/quote/brace alphabet up to length 3 (thorough 4) and format-string '
             'probes are injected into path, query string, Host, X-Forwarded-Host and X-Forwarded-Proto of requests ending '
             'in 404, 405, 400, 500 and the last-resort page; PATH_INFO without a leading slash is a position of its own; the raw request target some servers put into REQUEST_URI / RAW_URI and an application with a domain_map are covered; the HTML token stream must equal the benign baseline and the '
-            'JSON rendering must be valid JSON, also when a JSON client and an HTML client fail at the same time on two threads (all schedules with <=1, thorough 2, preemptions).',
+            'JSON rendering must be valid JSON, also when a JSON client and an HTML client fail at the same time on two threads (all schedules with <=1, thorough 2, preemptions), and when the error template cannot be opened for the first page of the process (fault injected into the template path: fails once / always).',
     'note': 'Bounds: payload length <=4 over the listed alphabet + probes. Trusted: CPython html.parser / json.',
 }
 
@@ -47,7 +47,7 @@ PROBES = ['{e.__class__}', '{0}', '{url!r}', '{e.body.__class__.__mro__}', '{e.t
           '<!--', '--><b>', '<![CDATA[', '\\', '\\x3cb\\x3e', '%3Cb%3E', '&amp;lt;', 'javascript:alert(1)', '<b' + 'a' * 1200 + '>', '<script>x</script>' + 'a' * 1200, 'a' * 1100 + '<b>"', '<i>' * 300]
 POSITIONS = ['path', 'query', 'host', 'xfhost', 'xfproto', 'requri', 'rawuri']     # requri / rawuri: the raw request target as some
 #                                                    servers record it in environ['REQUEST_URI'] / environ['RAW_URI']
-KINDS = ['404', '405', '400', '500', 'critical', '400path', '500data', 'criticaldm']     # criticaldm: the last-resort page of an application with a domain_map
+KINDS = ['404', '405', '400', '500', 'critical', '400path', '500data', 'criticaldm', '500datasetup']     # criticaldm: the last-resort page of an application with a domain_map
 
 
 # 'rawpath': PATH_INFO is the payload itself, WITHOUT a leading slash (a raw client / a server that does not normalise)
@@ -68,6 +68,10 @@ def shards(tier, seed):
             for first in ALPHA:
                 out.append((kind, pos, first, n))
             out.append((kind, pos, None, None))      # the probes
+    # fault layer: the error-page template cannot be opened when the first page of the process is rendered
+    for kind in ('404', '500', '405'):
+        for pos in ('query', 'host', 'xfhost', 'path'):
+            out.append(('faulty', kind, pos, None))
     # E-SCHED layer: the rendering (JSON / HTML) is chosen per request, also when two requests fail at the same time
     for kind in ('404', '500', '405'):
         for start in (0, 1):
@@ -84,7 +88,7 @@ def bounds(tier, seed):
             'error_kinds': KINDS, 'renderings': ['html', 'json']}
 
 
-FLOORS = {'schedules': 500, 'html_pages': 5000, 'json_pages': 2000, 'critical_pages': 500, 'markup_payloads': 3000}
+FLOORS = {'fault_pages': 1000, 'schedules': 500, 'html_pages': 5000, 'json_pages': 2000, 'critical_pages': 500, 'markup_payloads': 3000}
 
 
 class Events(HTMLParser):
@@ -166,9 +170,17 @@ class Apps:
         def bad404dm(res):
             raise RuntimeError('error handler failed')
         self.app3 = app3
+        # an application that ran in debug mode and was then reconfigured through setup() with debug off
+        app4 = om.Ombott({'debug': True})
+        app4.setup({'debug': False})
+
+        def crashdata4(x=None):
+            raise ValueError('invalid literal: %r / %s' % (app4.request.query_string, app4.request.path))
+        app4.route('/d/<x:path>', 'GET', crashdata4)
+        self.app4 = app4
 
     def request(self, kind, pos, payload, as_json):
-        base = {'404': '/nf/', '405': '/m/', '400': '/b/', '500': '/c/', 'critical': '/nf/', 'criticaldm': '/nf/', '400path': '/nf/\xe9', '500data': '/d/'}[kind]
+        base = {'404': '/nf/', '405': '/m/', '400': '/b/', '500': '/c/', 'critical': '/nf/', 'criticaldm': '/nf/', '500datasetup': '/d/', '400path': '/nf/\xe9', '500data': '/d/'}[kind]
         path = base + (payload if pos == 'path' else 'a')
         if pos == 'rawpath':
             path = payload
@@ -189,11 +201,11 @@ class Apps:
         env = wsgi.environ(method, path, qs=qs, headers=headers, **kw)
         if pos in ('requri', 'rawuri'):
             env['REQUEST_URI' if pos == 'requri' else 'RAW_URI'] = base + payload + '?q=' + payload
-        return wsgi.call(self.app2 if kind == 'critical' else (self.app3 if kind == 'criticaldm' else self.app), env)
+        return wsgi.call({'critical': self.app2, 'criticaldm': self.app3, '500datasetup': self.app4}.get(kind, self.app), env)
 
 
 def expected_status(kind):
-    return {'404': 404, '405': 405, '400': 400, '500': 500, 'critical': 500, 'criticaldm': 500, '400path': 400, '500data': 500}[kind]
+    return {'404': 404, '405': 405, '400': 400, '500': 500, 'critical': 500, 'criticaldm': 500, '500datasetup': 500, '400path': 400, '500data': 500}[kind]
 
 
 def shown(pos, payload):
@@ -251,6 +263,76 @@ def judge(apps, kind, pos, payload, as_json, baseline, core_alphabet=True):
 HERE = os.path.abspath(__file__)
 
 
+class FaultyPath:
+    """stands in for the path of the error-page template: open() fails for the first `fails` calls (EMFILE: the process is out of
+    file descriptors; or the data file is missing from a frozen build)"""
+
+    def __init__(self, real, fails):
+        self.real, self.left = real, fails
+
+    def open(self, *a, **kw):
+        if self.left:
+            self.left -= 1
+            raise OSError(24, 'Too many open files')
+        return self.real.open(*a, **kw)
+
+    def __getattr__(self, k):
+        return getattr(self.real, k)
+
+
+def faulty_request(kind, pos, payload, fails):
+    """the FIRST error page of a fresh process, with open() of the template failing `fails` times"""
+    om = sut.load(fresh=True)
+    er = sut.sub('error_render')
+    er.html = FaultyPath(er.html, fails)
+    return Apps(om).request(kind, pos, payload, False)
+
+
+def work_faulty(spec):
+    _, kind, pos, _n = spec
+    res = core.new_result()
+    c = res['counters']
+    for fails in (1, 99):
+        b = faulty_request(kind, pos, 'a', fails)
+        bb = b.body.decode('utf8', 'replace')
+        base = tokens(bb)
+        for payload in list(payloads(2)) + PROBES[:12]:
+            case = {'kind': kind, 'pos': pos, 'payload': payload, 'json': False, 'open_fails': fails}
+            core.track(res, case)
+            cl = faulty_request(kind, pos, payload, fails)
+            res['states'] += 1
+            res['transitions'] += 1
+            c['fault_pages'] += 1
+            if any(ch in payload for ch in '<>"\'&{}'):
+                res['nontrivial'] += 1
+            v = faulty_verdict(cl, b, base, payload)
+            res['outcomes'].add(f'{kind} {pos} template unreadable x{fails} -> {cl.code} {"ok" if v is None else v[0]}')
+            if v is not None:
+                core.add_violation(res, case, f'{case}: {v[1]}', sig=f'fault:{v[0]}:{kind}')
+    core.untrack()
+    sut.load(fresh=True)
+    res['execs'] = res['transitions']
+    core.add_sample(res, {'kind': kind, 'position': pos, 'fault': 'open() of the error template fails (first call / every call)'})
+    return res
+
+
+def faulty_verdict(cl, b, base, payload):
+    probs = wsgi.pep3333_problems(cl)
+    if probs:
+        return 'wsgi', probs[0]
+    if cl.code != b.code:
+        return 'status', f'status {cl.status}; with a benign payload the same fault gives {b.status}'
+    body = cl.body.decode('utf8', 'replace')
+    if not (cl.header('Content-Type') or '').startswith('text/html'):
+        return None
+    if re.search(r'<[a-zA-Z/!?]', payload) and payload in body:
+        return 'verbatim', f'payload {payload[:80]!r} occurs verbatim in the page: …{body[max(0, body.find(payload) - 40):body.find(payload) + len(payload[:80]) + 20]!r}…'
+    ev, _ = tokens(body)
+    if ev != base[0]:
+        return 'markup-injected', f'HTML token sequence differs from the benign page under the same fault; extra/different tokens {[e for e in ev if e not in base[0]][:3]!r}'
+    return None
+
+
 def run_threads(om, kind, prefix):
     """two clients fail the same way at the same time on one application: one asks for JSON, one for HTML"""
     from vf.sched import Scheduler
@@ -306,6 +388,8 @@ def work_threads(spec):
 def work(spec):
     if spec[0] == 'threads':
         return work_threads(spec)
+    if spec[0] == 'faulty':
+        return work_faulty(spec)
     kind, pos, first, n = spec
     res = core.new_result()
     om = sut.load()
@@ -369,6 +453,15 @@ def work(spec):
 
 
 def replay(case):
+    if case.get('open_fails'):
+        b = faulty_request(case['kind'], case['pos'], 'a', case['open_fails'])
+        cl = faulty_request(case['kind'], case['pos'], case['payload'], case['open_fails'])
+        v = faulty_verdict(cl, b, tokens(b.body.decode('utf8', 'replace')), case['payload'])
+        sut.load(fresh=True)
+        if v is None:
+            return None
+        return (f'first error page of a fresh process ({case["kind"]}), open() of the error template fails {"once" if case["open_fails"] == 1 else "every time"} '
+                f'(OSError 24), payload {case["payload"][:60]!r} in {case["pos"]}: {v[1]}')
     if case.get('kind') == 'threads':
         om = sut.load()
         x = run_threads(om, case['error_kind'], tuple(case['choices']))
